@@ -23,7 +23,7 @@ from sim.world import Run
 
 ID = "C29"
 LEVEL = "exploration"
-RUNS = {"quick": 3000, "thorough": 200000}
+RUNS = {"quick": 3000, "thorough": 1200000}
 BUDGET = {"quick": 100.0, "thorough": 3300.0}
 CHUNK = 100
 RULE = ("one run = one secure tunnel session with a seeded receive history (genuine / replayed / reordered counters / forged / "
